@@ -185,8 +185,13 @@ package rapidcore
 //@   ensures [sent-only-on-success] srvBuffered(s, invokeID) ==> (s.invokeCtx.ReplySent <==> r0 == nil)
 //@   ensures [keeps-reservation] unchanged(s.invokeCtx)
 
+// C17 / C12 / C07: the direct reply path parses the response mode back from the reply headers and gives up on a value it does not
+// know (nothing forwarded, no End-Of-Response, the reply marked sent, the /error handler left to panic, the invoker parked until
+// the timeout). What the runtime put into its header is client input: an error is sent on with a mode the reply path knows, or none
+//@ event ErrorSentOnWithAnUnknownMode = call rapidcore.(*Server).sendResponseUnsafe when has(a2, directinvoke.FunctionResponseModeHeader) && !foldEq(a2[directinvoke.FunctionResponseModeHeader], "buffered") && !foldEq(a2[directinvoke.FunctionResponseModeHeader], "streaming")
 //@ func (*Server).SendErrorResponse
 //@   modifies serverReply
+//@   ensures [an-error-is-sent-on-with-a-known-response-mode-or-none] delta(ErrorSentOnWithAnUnknownMode) == 0
 //@   ensures [bad-id] old(s.invokeCtx) == nil || invokeID != old(s.invokeCtx.Token.InvokeID) ==> r0 == interop.ErrInvalidInvokeID && noReplyWritten()
 //@   ensures [bad-id-no-effect] old(s.invokeCtx) != nil && invokeID != old(s.invokeCtx.Token.InvokeID) ==> unchanged(s.invokeCtx, s.invokeCtx.ReplySent, s.invokeCtx.ReplyStream, s.invokeCtx.Direct)
 //@   ensures [second] old(s.invokeCtx) != nil && invokeID == old(s.invokeCtx.Token.InvokeID) && old(s.invokeCtx.ReplySent) ==> r0 == interop.ErrResponseSent && noReplyWritten() && unchanged(s.invokeCtx, s.invokeCtx.ReplySent)
